@@ -697,7 +697,8 @@ def sched_curve(curve, nthreads, bound, acc, only_prefix=None, max_exec=None, fu
 
 def _glue_workloads_names():
     return ["IntegerGMP", "IntegerCustom", "IntegerNative", "RSA-sign", "DSA-sign", "ECDSA-sign", "EdDSA-sign", "AES-GCM", "AES-CCM",
-            "AES-EAX", "AES-OCB", "AES-SIV", "hashes", "MACs", "SP800-185", "KDF", "OAEP"]
+            "AES-EAX", "AES-OCB", "AES-SIV", "hashes", "MACs", "SP800-185", "KDF", "OAEP", "shared-key-first-use-ed25519",
+            "shared-key-first-use-ed448"]
 
 
 # ---- Python-level schedules over the library's Python glue: two threads, each with objects of its own ------------------
@@ -808,6 +809,24 @@ def _glue_workloads():
         return body
     W["KDF"] = (["Protocol/KDF.py"], kdf(b"password-one"), kdf(b"another password"))
 
+    # ONE private key object shared by both threads and used for the first time by both: what the key computes lazily (the public point
+    # of an EdDSA key) is "lazily initialised shared data".  The key is rebuilt for every execution (fresh=True below).
+    def shared_key(curve, n):
+        holder = {}
+
+        def fresh():
+            from Crypto.PublicKey import ECC
+            holder["k"] = ECC.construct(curve=curve, seed=bytes(range(1, n + 1)))
+
+        def body():
+            k = holder["k"]
+            return k.public_key().export_key(format="raw").hex()
+        body.fresh = fresh
+        return body
+    for curve, n in (("ed25519", 32), ("ed448", 57)):
+        b = shared_key(curve, n)
+        W["shared-key-first-use-" + curve] = (["PublicKey/ECC.py"], b, b)
+
     def oaep(bits, msg):
         def body():
             from Crypto.Cipher import PKCS1_OAEP
@@ -823,8 +842,17 @@ def _glue_workloads():
 
 def glue_schedules(name, bound, acc, only_prefix=None, max_exec=None):
     files, fa, fb = _glue_workloads()[name]
-    solo = [repr(fa()), repr(fb())]
-    if [repr(fa()), repr(fb())] != solo:
+    fresh = getattr(fa, "fresh", None)          # workloads on a shared object rebuild it before every execution
+
+    def solo_run():
+        out = []
+        for f in (fa, fb):
+            if fresh:
+                fresh()
+            out.append(repr(f()))
+        return out
+    solo = solo_run()
+    if solo_run() != solo:
         acc.error("python glue workload %s is not deterministic when run alone" % name)
         return 0, {}
     sched = pysched.Scheduler({(f, "*") for f in files})
@@ -851,7 +879,10 @@ def glue_schedules(name, bound, acc, only_prefix=None, max_exec=None):
             while ch and ch[-1] == 0:
                 ch.pop()
             state["fail"] = (ch, problem)
-    mk = lambda: [fa, fb]
+    def mk():
+        if fresh:
+            fresh()
+        return [fa, fb]
     from Crypto.PublicKey import _point
     real_lock = _point._Curves.curves_lock
     _point._Curves.curves_lock = pysched.SchedRLock(sched)      # the library's only lock must be visible to the scheduler
